@@ -458,3 +458,74 @@ def handler_catches(handler, excname='Exception'):
         if d in _EXC_HIER and exc_is_subclass(excname, d):
             return True
     return False
+
+
+def bind_args(call, fninfo):
+    """parameter name -> argument expression for a call of a package function (positional and keyword)"""
+    out = {}
+    params = fninfo.params
+    if fninfo.cls is not None and params and params[0] == 'self':
+        params = params[1:]
+    for i, a in enumerate(call.args):
+        if isinstance(a, ast.Starred):
+            break
+        if i < len(params):
+            out[params[i]] = a
+    for k in call.keywords:
+        if k.arg:
+            out[k.arg] = k.value
+    return out
+
+
+class _IfExpAssign(ast.NodeTransformer):
+    """``x = A if c else B``  ->  ``if c: x = A  else: x = B``  (same for ``return`` and augmented assignment)"""
+
+    def _split(self, node, value_field='value'):
+        v = getattr(node, value_field)
+        if not isinstance(v, ast.IfExp):
+            return node
+        import copy
+        a, b = copy.copy(node), copy.copy(node)
+        setattr(a, value_field, v.body)
+        setattr(b, value_field, v.orelse)
+        new = ast.If(test=v.test, body=[self.visit(a)], orelse=[self.visit(b)])
+        ast.copy_location(new, node)
+        for x in ast.walk(new):
+            if not hasattr(x, 'lineno'):
+                x.lineno = node.lineno
+                x.col_offset = node.col_offset
+        return new
+
+    def visit_Assign(self, node):
+        return self._split(node)
+
+    def visit_Return(self, node):
+        if node.value is None:
+            return node
+        return self._split(node)
+
+    def visit_FunctionDef(self, node):
+        node.body = [self.visit(s) for s in node.body]
+        return node
+
+
+def expand_ifexp(fn_node):
+    """deep copy of a function in which conditional-expression assignments/returns are if statements"""
+    import copy
+    t = copy.deepcopy(fn_node)
+
+    def walk_block(body):
+        out = []
+        for st in body:
+            for fld in ('body', 'orelse', 'finalbody'):
+                blk = getattr(st, fld, None)
+                if isinstance(blk, list) and blk and isinstance(blk[0], ast.stmt):
+                    setattr(st, fld, walk_block(blk))
+            for h in getattr(st, 'handlers', []) or []:
+                h.body = walk_block(h.body)
+            if isinstance(st, (ast.Assign, ast.Return)) and not isinstance(st, ast.FunctionDef):
+                st = _IfExpAssign()._split(st) if getattr(st, 'value', None) is not None else st
+            out.append(st)
+        return out
+    t.body = walk_block(t.body)
+    return t
